@@ -349,6 +349,7 @@ class Engine(object):
         n = 0
         while True:
             self.cursor = 0
+            self.aux_model = self.aux_unknown = None      # what valid() recorded belongs to the path it was asked on
             self.pc = []
             self.nl = []
             self.inputs = {}
@@ -473,9 +474,11 @@ class Engine(object):
             self.obligations[name] = Obligation(name)
         return self.obligations[name]
 
-    def valid(self, cond, timeout=20000):
+    def valid(self, cond, timeout=20000, record=True):
         """Validity of cond under the current path condition, for contract code that decides a clause over many
-        heap items before stating the obligation; the solver time is charged to the next obligation recorded."""
+        heap items before stating the obligation; the solver time is charged to the next obligation recorded.
+        record=False: a question the contract code asks to choose how to state a clause (a refutation is not a
+        counterexample of anything): no counterexample is kept, a give-up still makes the next failure undecided."""
         if isinstance(cond, bool):
             return cond
         t0 = time.time()
@@ -485,7 +488,7 @@ class Engine(object):
         if res == z3.unknown:
             # "not proved" is not "refuted": the next obligation recorded as failing is undecided instead
             self.aux_unknown = 'solver gave up on a clause (%s)' % s.reason_unknown()
-        elif res == z3.sat:
+        elif res == z3.sat and record:
             # the counterexample of the most recently refuted clause: the inputs a failing obligation is replayed with
             self.aux_model = self.model_inputs(s.model())
         dt = time.time() - t0
